@@ -465,3 +465,68 @@ func ruleR17f(c *Ctx) {
 	}
 	c.floor("R17f", "escaping arms of ast.quoteString", 5, arms)
 }
+
+// R17g: the float printer writes exponents with an explicit sign (strconv.FormatFloat, format 'g': 1e+06,
+// 2.5e-07), so the scanner's exponent must accept both signs: after the accept of the exponent letter the
+// scanner accepts an optional sign from a set holding '+' and '-'.
+func ruleR17g(c *Ctx) {
+	p := c.pkg("parse")
+	fd := c.mustFunc("parse", "scanNumber")
+	ap := c.pkg("ast")
+	pr := c.mustFunc("ast", "FloatNode.String")
+	if p == nil || fd == nil || ap == nil || pr == nil {
+		return
+	}
+	info := p.TypesInfo
+	// the printer formats with FormatFloat (signed exponents) — otherwise the obligation does not arise
+	usesFormatFloat := false
+	ast.Inspect(pr.Body, func(x ast.Node) bool {
+		if call, ok := x.(*ast.CallExpr); ok {
+			if cal := calleeFunc(call, ap.TypesInfo); cal != nil && cal.FullName() == "strconv.FormatFloat" {
+				usesFormatFloat = true
+			}
+		}
+		return true
+	})
+	acceptSet := func(e ast.Expr) (string, bool) {
+		call, ok := ast.Unparen(e).(*ast.CallExpr)
+		if !ok || len(call.Args) != 1 {
+			return "", false
+		}
+		cal := calleeFunc(call, info)
+		if cal == nil || (cal.Name() != "accept" && cal.Name() != "acceptRun") {
+			return "", false
+		}
+		tv := info.Types[call.Args[0]]
+		if tv.Value == nil || tv.Value.Kind() != constant.String {
+			return "", false
+		}
+		return constant.StringVal(tv.Value), true
+	}
+	n := 0
+	ast.Inspect(fd.Body, func(x ast.Node) bool {
+		ifs, ok := x.(*ast.IfStmt)
+		if !ok {
+			return true
+		}
+		set, ok := acceptSet(ifs.Cond)
+		if !ok || !strings.ContainsAny(set, "eE") || strings.ContainsAny(set, "0123456789") {
+			return true
+		}
+		n++
+		signs := ""
+		ast.Inspect(ifs.Body, func(y ast.Node) bool {
+			if e, ok := y.(ast.Expr); ok {
+				if s, ok := acceptSet(e); ok && !strings.ContainsAny(s, "0123456789") {
+					signs += s
+				}
+			}
+			return true
+		})
+		good := strings.Contains(signs, "+") && strings.Contains(signs, "-")
+		c.check(good || !usesFormatFloat, "R17g", "parse.scanNumber exponent-sign", ifs.Pos(), "the exponent accepts '+' and '-', the signs the float printer writes",
+			fmt.Sprintf("after the exponent letter the scanner accepts a sign from %q only, but FloatNode.String prints exponents as FormatFloat writes them, with an explicit '+' or '-' (1e+06): such a float no longer parses back", signs))
+		return true
+	})
+	c.floor("R17g", "exponent branches in scanNumber", 1, n)
+}
